@@ -178,13 +178,17 @@ def main(prop, tier):
             params.append(("tsan", base * 1000 + i, rounds, [2, 4, 8][i % 3]))
         for i in range(nas):
             params.append(("asan", base * 1000 + 500 + i, rounds * 3, [8, 4, 2][i % 3]))
+        for i in range(16 if quick else 64):
+            params.append(("rel", base * 1000 + 800 + i, rounds * (12 if quick else 40), 8))     # full speed, 8 threads x 16 processes
         camp.rule = ("h_threads: per round 2/4/8 problems (integer problems scaled by a ~2^72 factor with brute-force ground truth, "
-                     "rational problems with ~70-bit numerators and denominators, uninterpreted functions, small-number control group) "
+                     "rational problems with ~70-bit numerators and denominators, uninterpreted functions, small-number control group, and "
+                     "the arbitrary-precision number kernels gcd/lcm/floor/ceil/division on 20-40 digit operands) "
                      "are solved alone and then concurrently, every thread with its own logic, configuration and solver, terms built "
                      "inside the concurrent section after a common start; monitors: concurrent result (status and model check) equals "
                      "the run-alone result and the brute-force truth; zero ThreadSanitizer reports (tsan build of library and harness, "
                      "halt_on_error=0, reports de-duplicated by the first opensmt frames of the two stacks) and zero ASan/UBSan reports "
-                     "(asan build); distinct_nontrivial = instances whose concurrent run agreed in a process without any report")
+                     "(asan build); the release build repeats the result monitor at full speed with 8 threads in each of 16 "
+                     "processes; distinct_nontrivial = instances whose concurrent run agreed in a process without any report")
         camp.assumptions = ["libgmp itself is not instrumented: a race inside GMP on shared data is only visible through wrong results",
                             "interleavings are those the scheduler produced under sanitizer slow-down, not all interleavings"]
         camp.run(c24_case, params, chunksize=1)
